@@ -1,7 +1,13 @@
 """C07 — subscriptions() returns every applicable subscriber, with multiplicity, in order."""
 from . import regcommon, worldcommon
 
-THEOREMS = ["ZI.Registry.subsRec_eq_concat", "ZI.Registry.C07_multiset", "ZI.Registry.C07_order_first_position", "ZI.Lv.find_update", "ZI.Lv.find_remove"]
+THEOREMS = ["ZI.Registry.subsRec_eq_concat", "ZI.Registry.C07_multiset", "ZI.Registry.C07_order_first_position", "ZI.Lv.find_update", "ZI.Lv.find_remove",
+            # over histories / in every world (ZI/Props/C07Hist.lean)
+            "ZI.Registry.C07_chain", "ZI.Registry.C07_regSubs_flat", "ZI.Registry.C07_flat", "ZI.Registry.C07_count", "ZI.Registry.C07_appKeys_spec",
+            "ZI.Registry.C07_mem_some", "ZI.Registry.C07_mem_none", "ZI.Registry.C07_multiplicity", "ZI.Registry.C07_order_chain", "ZI.Registry.C07_order_required",
+            "ZI.Registry.C07_sreqs_order", "ZI.Registry.C07_leaf_history", "ZI.Registry.C07_subscribe_history", "ZI.Registry.C07_unsubscribe_history",
+            "ZI.Registry.C07_unsubscribe_result", "ZI.Registry.C07_hist_flat", "ZI.Registry.C07_hist_mem_some", "ZI.Registry.C07_hist_mem_none",
+            "ZI.Registry.C07_hist_count", "ZI.Registry.C07_hist_multiplicity", "ZI.Registry.C07_hist_order_chain", "ZI.Registry.C05_registry_transparent_subscriptions"]
 PROFILE = dict(weights=[0.5, 0.2, 7, 2.5, 0.6, 0.1, 0], queries=["lookupAll", "subs", "book"], nregs=(1, 5), regbases=[0, 1, 1, 1, 1, 2], extra_queries=4, arity=[0, 1, 1, 1, 2, 2, 3])
 # "every reachable state" includes states reached by declaration and hierarchy changes on the required specifications
 WORLD_PROFILE = dict(weights=[0.5, 0.2, 5, 1.5, 2.5, 2.5, 2, 1.0, 0.2], nregs=(1, 5), extra=1, provq=0, arity=[1, 2, 2, 3], scen_rebuild=0.08)
